@@ -3,6 +3,7 @@
 // injected at each tick of the guarded hook; the complete observable state of both data bases is
 // taken before and after and judged by the Lean driver.
 #include "krig_common.hpp"
+#include "Anamorphosis/AnamHermite.hpp"
 #include "db_observe.hpp"
 #include "Calculators/ACalculator.hpp"
 #include "Calculators/CalcMigrate.hpp"
@@ -73,6 +74,8 @@ int main()
     {"inverseDistance",1, true,  [](World& w) { return inverseDistance(w.dbin, w.grid); }},
     {"nearestNeighbor",0, true,  [](World& w) { return nearestNeighbor(w.dbin, w.dbout); }},
     {"movingAverage",  1, true,  [](World& w) { return movingAverage(w.dbin, w.grid, w.neighM); }},
+    {"anam_raw_to_gaussian", 2, false, [](World& w) { AnamHermite* a = AnamHermite::create(6); int rc = 1; if (a->fitFromLocator(w.dbin) == 0) rc = a->rawToGaussianByLocator(w.dbin); delete a; return rc; }},
+    {"anam_raw_to_factor",   2, false, [](World& w) { AnamHermite* a = AnamHermite::create(6); int rc = 1; if (a->fitFromLocator(w.dbin) == 0) rc = a->rawToFactor(w.dbin, 3); delete a; return rc; }},
   };
   for (long iw = 0; iw < nworld; iw++)
     for (auto& c : calcs)
